@@ -58,6 +58,7 @@ structure Side (C : Type) where
   worked : Nat → Nat := fun _ => 0
   executed : Nat → Nat := fun _ => 0
   curPass : Nat := 0        -- key of the pass being run
+  timeouts : Nat := 0       -- ghost: candidates found timed out by the scan so far (not a field of the code)
   log : List (Ev C) := []
 
 /-- `f[k] += 1` -/
@@ -152,7 +153,7 @@ def processDone {C σ} [DecidableEq C] (cfg : Cfg) (size : C → Nat) (cur : C) 
       match (env i).exit with
       | some .timeout =>
         let rs := { rs with tc := rs.tc + 1 }
-        let g := saveExtra cfg g
+        let g := saveExtra cfg { g with timeouts := g.timeouts + 1 }
         processDone cfg size cur env done rest g rs (decide (rs.tc ≥ cfg.maxTimeouts))
       | some .foreign => .inr (.foreign, g)
       | _ =>
